@@ -15,7 +15,9 @@ Pairs == {[rows |-> <<s1, s2, SubSeq(Third, 1, Len2) \o <<71, 84>>>>, o |-> Opt(
             s1 \in {s \o <<65, 67>> : s \in [1..Len2 -> Sym]}, s2 \in {s \o <<65, 67>> : s \in [1..Len2 -> Sym]}, m \in Models, g \in {TRUE, FALSE}}
 \* option cube on a few alignments with leading / internal / trailing gaps and ambiguity codes
 Shapes == {<<<<45, 65, 67, 71, 84, 45, 45>>, <<65, 65, 45, 71, 67, 84, 45>>, <<45, 45, 67, 82, 84, 84, 65>>>>,
-           <<<<65, 67, 71, 84, 65, 67, 71>>, <<65, 84, 71, 84, 78, 67, 65>>, <<97, 99, 103, 116, 97, 99, 103>>>>}
+           <<<<65, 67, 71, 84, 65, 67, 71>>, <<65, 84, 71, 84, 78, 67, 65>>, <<97, 99, 103, 116, 97, 99, 103>>>>,
+           \* ambiguity codes facing internal gaps (N / -, - / N, R / -, - / Y): what a gap-counting mode counts there
+           <<<<65, 78, 45, 82, 45, 67, 71>>, <<65, 45, 78, 45, 89, 67, 84>>, <<65, 67, 71, 84, 65, 67, 71>>>>}
 Cube == {[rows |-> sh, o |-> Opt(m, FALSE, "1", rg, gm, ra, w), r |-> r, cpus |-> 3] :
            sh \in Shapes, m \in Models, rg \in {TRUE, FALSE}, gm \in {0, 1, 2}, ra \in {TRUE, FALSE},
            w \in {<<>>, <<4, 8, 4, 12, 4, 2, 4>>}, r \in {NoRange, <<0, 1, 1, 2>>, <<2, 9, 0, 0>>, <<1, 0, 0, 0>>}}
